@@ -389,7 +389,7 @@ impl<'r> Gen<'r> {
     }
 
     fn one(&mut self) {
-        let r = self.rng.below(40);
+        let r = self.rng.below(52);
         match r {
             0 | 1 => {
                 let n = self.fresh("i");
@@ -781,6 +781,102 @@ impl<'r> Gen<'r> {
                 self.stmts.push(format!("{n} = [[i, str(i)] for i in range({})]", self.rng.range(5, 60)));
                 self.stmts.push(format!("{n} = None"));
                 self.bind(&n, Kind::Other);
+            }
+            40 => {
+                // dict beyond the hash-index threshold, then shrunk again
+                let n = self.fresh("d");
+                self.stmts.push(format!("{n} = {{(\"k%d\" % i): [i, str(i)] for i in range({})}}", 17 + self.rng.below(20)));
+                self.bind(&n, Kind::Dict);
+                if self.rng.bool() {
+                    self.stmts.push(format!("_ = [{n}.pop(\"k%d\" % i) for i in range({})]", 3 + self.rng.below(12)));
+                }
+            }
+            41 => {
+                // list whose capacity exceeds its length
+                let n = self.fresh("l");
+                self.stmts.push(format!("{n} = [[i] for i in range({})]", 20 + self.rng.below(30)));
+                self.stmts.push(format!("_ = [{n}.pop() for _i in range({})]", 10 + self.rng.below(10)));
+                self.bind(&n, Kind::List);
+            }
+            42 if self.feat.structs => {
+                let n = self.fresh("sr");
+                let mut allow = true;
+                let fields: Vec<String> = (0..(6 + self.rng.below(8))).map(|i| format!("f{i} = {}", self.elem(&mut allow))).collect();
+                self.stmts.push(format!("{n} = struct({})", fields.join(", ")));
+                self.bind(&n, Kind::Other);
+            }
+            43 if self.feat.natives => {
+                if let Some(f) = self.of_kind(Kind::Func1) {
+                    let n = self.fresh("pt");
+                    let mut allow = true;
+                    let e = self.elem(&mut allow);
+                    self.stmts.push(format!("def {n}_t(a, b = None, c = None):\n    return [a, b, c]"));
+                    self.stmts.push(format!("{n} = partial({n}_t, [{e}], c = {{\"k\": {f}}})"));
+                    self.bind(&n, Kind::Func0);
+                }
+            }
+            44 => {
+                // bound method whose receiver is reachable only through it
+                let n = self.fresh("bm");
+                let e = self.list_lit();
+                match self.rng.below(3) {
+                    0 => {
+                        self.stmts.push(format!("{n} = ({e} + [\"recv\"]).append"));
+                        self.bind(&n, Kind::Func1);
+                    }
+                    1 => {
+                        self.stmts.push(format!("{n} = (\"recv-\" + str({})).upper", self.rng.below(9)));
+                        self.bind(&n, Kind::Func0);
+                    }
+                    _ => {
+                        self.stmts.push(format!("{n} = dict([(\"r\", {e})]).get"));
+                        self.bind(&n, Kind::Other);
+                        self.stmts.push(format!("emit({n}(\"r\"))"));
+                    }
+                }
+            }
+            45 => {
+                let n = self.fresh("t");
+                let mut allow = true;
+                let e = self.elem(&mut allow);
+                match self.rng.below(3) {
+                    0 => self.stmts.push(format!("{n} = ()")),
+                    1 => self.stmts.push(format!("{n} = ({e},)")),
+                    _ => self.stmts.push(format!("{n} = ({e}, ({e},), ())")),
+                }
+                self.bind(&n, Kind::Tuple);
+            }
+            46 if self.feat.strings => {
+                let n = self.fresh("s");
+                self.stmts.push(format!("{n} = (\"long-\" * {}) + str({})", 20 + self.rng.below(80), self.rng.below(1000)));
+                self.bind(&n, Kind::Str);
+            }
+            47 if self.feat.records => {
+                // record / enum types reachable only through their instances
+                let n = self.fresh("r");
+                if self.rng.bool() {
+                    self.stmts.push(format!("{n} = record(p = int, q = field(list, []))(p = {}, q = [{}])", self.rng.below(50), self.rng.below(9)));
+                } else {
+                    self.stmts.push(format!("{n} = enum(\"north\", \"south\")(\"south\")"));
+                }
+                self.bind(&n, Kind::Other);
+            }
+            48 if self.feat.closures => {
+                // a closure reachable only through another closure
+                let mk = self.fresh("mk");
+                let f = self.fresh("cl");
+                let init = self.list_lit();
+                self.stmts.push(format!(
+                    "def {mk}():\n    c = {init}\n    def a():\n        return c\n    def b():\n        return a\n    return b"
+                ));
+                self.stmts.push(format!("{f} = {mk}()"));
+                self.bind(&f, Kind::Func0);
+                self.stmts.push(format!("emit({f}()())"));
+            }
+            49 if self.feat.sets => {
+                let n = self.fresh("st");
+                self.stmts.push(format!("{n} = set([(i, str(i)) for i in range({})])", 17 + self.rng.below(10)));
+                self.bind(&n, Kind::Set);
             }
             _ => {
                 self.emit_some();
